@@ -28,16 +28,15 @@ Proof. vm_compute. reflexivity. Qed.
 (* the witness: 5G-S-TMSI with AMF Pointer 0x3F; storing AMF Set ID 0 must leave the pointer alone (table), the library's
    setter clears it *)
 Lemma set_amf_set_id_clears_pointer :
-  exists g s p st v st',
-    find_acc acc_descs "TMSI5GS" "SetAMFSetID" = Some s /\ find_acc acc_descs "TMSI5GS" "GetAMFSetID" = Some g /\
-    find_acc acc_descs "TMSI5GS" "GetAMFPointer" = Some p /\
-    octets_ok st = true /\ value_fits (FSpan 1 10) st (inl v) = true /\
-    acc_set (a_body s) st (inl v) = Some st' /\
-    acc_get (a_body p) st = Some (inl 0x3F) /\ acc_get (a_body p) st' = Some (inl 0) /\
-    spec_set (FSpan 1 10) st (inl v) <> Some st'.
+  exists s p, find_acc acc_descs "TMSI5GS" "SetAMFSetID" = Some s /\ find_acc acc_descs "TMSI5GS" "GetAMFPointer" = Some p /\
+    let st := [0xF4; 0xFF; 0x3F; 0; 0; 0; 1] in
+    octets_ok st = true /\ value_fits (FSpan 1 10) st (inl 0) = true /\ acc_get (a_body p) st = Some (inl 0x3F) /\
+    exists st', acc_set (a_body s) st (inl 0) = Some st' /\ acc_get (a_body p) st' = Some (inl 0) /\
+                spec_set (FSpan 1 10) st (inl 0) <> Some st'.
 Proof.
-  eexists _, _, _, [0xF4; 0xFF; 0x3F; 0; 0; 0; 1], 0, _.
-  repeat split; try (vm_compute; reflexivity). vm_compute. discriminate.
+  eexists. eexists. split; [vm_compute; reflexivity|]. split; [vm_compute; reflexivity|].
+  cbv zeta. cbn [a_body]. split; [reflexivity|]. split; [reflexivity|]. split; [reflexivity|].
+  eexists. split; [vm_compute; reflexivity|]. split; [reflexivity|]. vm_compute. discriminate.
 Qed.
 
 Lemma conforming_count :
@@ -57,11 +56,15 @@ Proof.
 Qed.
 
 (* ------------------------------------------------------------------ finite ranges *)
-Definition rng (n:nat) : list N := map N.of_nat (seq 0 n).
-Lemma in_rng x n : x < N.of_nat n -> In x (rng n).
+Fixpoint rng_from (n:nat) (a:N) : list N := match n with O => [] | S n' => a :: rng_from n' (N.succ a) end.
+Definition rng (n:nat) : list N := rng_from n 0.
+Lemma in_rng_from n : forall a x, a <= x -> x < a + N.of_nat n -> In x (rng_from n a).
 Proof.
-  intro H. unfold rng. rewrite <- (N2Nat.id x). apply in_map. apply in_seq. lia.
+  induction n as [|n IH]; intros a x H1 H2; [lia|]. cbn [rng_from].
+  destruct (N.eq_dec a x) as [->|Hne]; [now left|]. right. apply IH; lia.
 Qed.
+Lemma in_rng x n : x < N.of_nat n -> In x (rng n).
+Proof. intro H. apply in_rng_from; lia. Qed.
 Lemma forallb_rng (P:N -> bool) n : forallb P (rng n) = true -> forall x, x < N.of_nat n -> P x = true.
 Proof. intros H x Hx. rewrite forallb_forall in H. apply H. now apply in_rng. Qed.
 Lemma forallb_seq0 (P:nat -> bool) n : forallb P (seq 0 n) = true -> forall i, (i < n)%nat -> P i = true.
@@ -84,7 +87,7 @@ Definition G_cond (hi lo:nat) (mask:N) : bool :=
 Lemma G_fin :
   forallb (fun hi => forallb (fun lo => forallb (fun mask =>
     if G_cond hi lo mask then forallb (G_check hi lo mask) (rng 256) else true) (rng 256)) (seq 0 9)) (seq 0 9) = true.
-Proof. vm_compute. reflexivity. Qed.
+Proof. vm_cast_no_check (eq_refl true). Qed.
 Lemma G_all hi lo mask x :
   bits_ok hi lo = true -> mask < 256 -> N.shiftl (N.shiftr mask (N.of_nat (lo - 1))) (N.of_nat (lo - 1)) = fmask hi lo -> x < 256 ->
   N.shiftr (N.land x mask) (N.of_nat (lo - 1)) = (x / pw (lo - 1)) mod pw (hi - lo + 1).
@@ -110,7 +113,7 @@ Definition S_check (hi lo:nat) (x v:N) : bool :=
 Lemma S_fin :
   forallb (fun hi => forallb (fun lo =>
     if bits_ok hi lo then forallb (fun x => forallb (S_check hi lo x) (rng (2 ^ (hi - lo + 1)))) (rng 256) else true) (seq 0 9)) (seq 0 9) = true.
-Proof. vm_compute. reflexivity. Qed.
+Proof. vm_cast_no_check (eq_refl true). Qed.
 Lemma pw_nat w : pw w = N.of_nat (2 ^ w).
 Proof. unfold pw. rewrite Nat2N.inj_pow. reflexivity. Qed.
 Lemma S_all hi lo x v : bits_ok hi lo = true -> x < 256 -> v < pw (hi - lo + 1) -> S_check hi lo x v = true.
@@ -233,7 +236,7 @@ Proof. unfold span_ok. rewrite andb_true_iff, !Nat.leb_le. lia. Qed.
 Definition G16_check (w:nat) (x y:N) : bool :=
   u16 (u16 (N.shiftl x (N.of_nat (w - 8))) + (y / pw (16 - w)) mod pw (w - 8)) =? (256 * x + y) / pw (16 - w).
 Lemma G16_fin : forallb (fun w => forallb (fun x => forallb (G16_check w x) (rng 256)) (rng 256)) (seq 9 3) = true.
-Proof. vm_compute. reflexivity. Qed.
+Proof. vm_cast_no_check (eq_refl true). Qed.
 
 Lemma get_span_sem o w g st : get_conforms (FSpan o w) g = true -> octets_ok st = true ->
   acc_get g st = spec_get (FSpan o w) st.
@@ -259,10 +262,10 @@ Definition S16_check (w:nat) (y v:N) : bool :=
   (N.land (u8 (N.shiftr v (N.of_nat (w - 8)))) 255 =? X / 256) &&
   (u8 (N.land y (255 - fmask 8 (17 - w)) + u8 (N.shiftl (u8 (N.land v (pw (w - 8) - 1))) (N.of_nat (16 - w)))) =? X mod 256).
 Lemma S16_fin : forallb (fun w => forallb (fun y => forallb (S16_check w y) (rng (2 ^ w))) (rng 256)) (seq 9 3) = true.
-Proof. vm_compute. reflexivity. Qed.
+Proof. vm_cast_no_check (eq_refl true). Qed.
 Definition M16_check (w:nat) (x y:N) : bool := (256 * x + y) mod pw (16 - w) =? y mod pw (16 - w).
 Lemma M16_fin : forallb (fun w => forallb (fun x => forallb (M16_check w x) (rng 256)) (rng 256)) (seq 9 3) = true.
-Proof. vm_compute. reflexivity. Qed.
+Proof. vm_cast_no_check (eq_refl true). Qed.
 
 Lemma set_span_sem o w s st v : set_conforms (FSpan o w) s = true -> octets_ok st = true ->
   value_fits (FSpan o w) st v = true -> acc_set s st v = spec_set (FSpan o w) st v.
@@ -333,7 +336,7 @@ Definition L16_check (w:nat) (y n:N) : bool :=
   (X / 256 <? 256) && ((256 * (X / 256) + X mod 256) / pw (16 - w) =? n) &&
   forallb (fun b => if (16 - w <=? b)%nat then true else Bool.eqb (N.testbit (X mod 256) (N.of_nat b)) (N.testbit y (N.of_nat b))) (seq 0 8).
 Lemma L16_fin : forallb (fun w => forallb (fun y => forallb (L16_check w y) (rng (2 ^ w))) (rng 256)) (seq 9 3) = true.
-Proof. vm_compute. reflexivity. Qed.
+Proof. vm_cast_no_check (eq_refl true). Qed.
 
 Theorem field_store_load k st v st' : kind_proved k = true -> octets_ok st = true -> spec_set k st v = Some st' ->
   spec_get k st' = Some v /\ List.length st' = List.length st /\ octets_ok st' = true /\
@@ -371,7 +374,8 @@ Proof.
     destruct (put_spec _ _ _ _ E1) as (L1 & Hn1 & Ho1). destruct (put_spec _ _ _ _ E2) as (L2 & Hn2 & Ho2).
     assert (Hm : X mod 256 < 256) by (apply N.mod_lt; lia).
     split; [cbn [spec_get]; rewrite (Ho2 o) by lia; rewrite Hn1, Hn2; now rewrite F1|].
-    split; [congruence|]. split; [eapply octets_ok_put; [eapply octets_ok_put|..]; eauto|].
+    assert (Hok1 : octets_ok st1 = true) by (eapply octets_ok_put; [exact Hst|exact F|exact E1]).
+    split; [congruence|]. split; [eapply octets_ok_put; [exact Hok1|exact Hm|exact E2]|].
     intros i b Hb Hf. rewrite (put_nth _ _ _ _ 0 E2), (put_nth _ _ _ _ 0 E1). cbn [in_field] in Hf.
     destruct (i =? o)%nat eqn:Ei; [cbn in Hf; discriminate|]. cbn [orb] in Hf.
     destruct (i =? S o)%nat eqn:Ej; [|reflexivity]. cbn [andb] in Hf.
